@@ -43,6 +43,8 @@ def run_shard(spec, shard):
         case = {"q": text, "ast": ast, "doc": doc}
         if r.random() < 0.08:
             case["exotic"] = r.randrange(1, 2**31)
+        if r.random() < 0.08:
+            case["alias"] = r.randrange(1, 2**31)
         f = examine(case)
         feats = Q.features(ast)
         from vlib.ref import evaluate as ev
